@@ -1,54 +1,35 @@
-(* C17 -- lemmas, part 4: base.CheckFactSignsBySuffrage.  The float64 test against exact rationals
-   (finite sweep by vm_compute, the bound is in the statement) and counted signs vs distinct members. *)
-From Coq Require Import ZArith NArith List Bool Lia Permutation.
+(* C17 -- lemmas, part 4b: base.CheckFactSignsBySuffrage against exact rationals; counted signs vs distinct members. *)
+From Coq Require Import ZArith NArith List Bool Lia ZifyBool ZifyNat ZifyN Permutation.
 From Flocq Require Import IEEE754.BinarySingleNaN IEEE754.Binary IEEE754.Bits.
-From MV Require Import C17.Model C17.Proofs.
+From MV Require Import C17.Model C17.Proofs C17.ProofsSweep.
 Import ListNotations.
 Open Scope Z_scope.
 
-Definition ratio (s n : Z) : binary64 := b64_mult mode_NE (b64_div mode_NE (b64_of_Z s) (b64_of_Z n)) (b64_of_Z 100).
-Definition b64_ltb (a b : binary64) : bool := match b64_compare a b with Some Lt => true | _ => false end.
-
-Lemma ratio_lt_eq s n k : ratio_lt s n k = b64_ltb (ratio s n) (b64_of_tenths k).
-Proof. reflexivity. Qed.
-
-Definition max_n : Z := 100.
-Definition kgrid : list Z := map (fun i => 510 + Z.of_nat i) (seq 0 491).
-Definition ngrid : list Z := map (fun i => 1 + Z.of_nat i) (seq 0 (Z.to_nat max_n)).
-Definition sgrid (n : Z) : list Z := map Z.of_nat (seq 0 (S (Z.to_nat n))).
-
-(* for every suffrage size n <= 100, every count s <= n and every one-decimal threshold k/10 in
-   [51.0, 100.0]: the float test rejects only when s/n*100 <= k/10 and accepts only when s/n*100 >= k/10 *)
-Definition sweep : bool :=
-  let ths := map (fun k => (k, b64_of_tenths k)) kgrid in
-  forallb (fun n =>
-    forallb (fun s =>
-      let r := ratio s n in
-      forallb (fun kt => if b64_ltb r (snd kt) then 1000 * s <=? fst kt * n else fst kt * n <=? 1000 * s) ths)
-      (sgrid n))
-    ngrid.
-
-Lemma sweep_true : sweep = true.
-Proof. vm_compute. reflexivity. Qed.
-
 Lemma in_kgrid k : 510 <= k <= 1000 -> In k kgrid.
-Proof. intros H. apply in_map_iff. exists (Z.to_nat (k - 510)). split; [lia|]. apply in_seq. lia. Qed.
+Proof. intros H. apply in_map_iff. exists (Z.to_nat (k - 510)). split; [cbv beta; rewrite Z2Nat.id by lia; lia|]. apply in_seq. lia. Qed.
+Lemma in_thresholds k : 510 <= k <= 1000 -> In (k, b64_of_tenths k) thresholds.
+Proof. intros H. unfold thresholds. apply in_map_iff. exists k. split; [reflexivity|apply in_kgrid; exact H]. Qed.
 Lemma in_ngrid n : 1 <= n <= max_n -> In n ngrid.
-Proof. unfold max_n. intros H. apply in_map_iff. exists (Z.to_nat (n - 1)). split; [lia|]. apply in_seq. simpl. lia. Qed.
+Proof.
+  unfold max_n. intros H. apply in_map_iff. exists (Z.to_nat (n - 1)). split; [cbv beta; rewrite Z2Nat.id by lia; lia|]. apply in_seq.
+  unfold max_n. lia.
+Qed.
 Lemma in_sgrid s n : 0 <= s <= n -> In s (sgrid n).
-Proof. intros H. apply in_map_iff. exists (Z.to_nat s). split; [lia|]. apply in_seq. lia. Qed.
+Proof. intros H. apply in_map_iff. exists (Z.to_nat s). split; [cbv beta; rewrite Z2Nat.id by lia; lia|]. apply in_seq. lia. Qed.
 
 Lemma ratio_sweep s n k : 0 <= s <= n -> 1 <= n <= max_n -> 510 <= k <= 1000 ->
   if ratio_lt s n k then 1000 * s <= k * n else k * n <= 1000 * s.
 Proof.
-  intros Hs Hn Hk. pose proof sweep_true as W. unfold sweep in W.
-  rewrite forallb_forall in W. specialize (W n (in_ngrid n Hn)).
-  rewrite forallb_forall in W. specialize (W s (in_sgrid s n Hs)).
-  cbv zeta in W. rewrite forallb_forall in W.
-  specialize (W (k, b64_of_tenths k)). simpl in W. rewrite ratio_lt_eq.
-  assert (I : In (k, b64_of_tenths k) (map (fun k => (k, b64_of_tenths k)) kgrid)).
-  { apply in_map_iff. exists k. split; [reflexivity|apply in_kgrid; exact Hk]. }
-  specialize (W I). destruct (b64_ltb (ratio s n) (b64_of_tenths k)); [apply Z.leb_le|apply Z.leb_le]; exact W.
+  intros Hs Hn Hk.
+  assert (W : sweep_one s n (ratio s n) (k, b64_of_tenths k) = true).
+  { apply (sweep_with_spec thresholds ngrid sweep_true n s (k, b64_of_tenths k)).
+    - apply in_ngrid; exact Hn.
+    - apply in_sgrid; exact Hs.
+    - apply in_thresholds; exact Hk. }
+  rewrite ratio_lt_eq. unfold sweep_one in W.
+  change (snd (k, b64_of_tenths k)) with (b64_of_tenths k) in W.
+  change (fst (k, b64_of_tenths k)) with k in W.
+  destruct (b64_ltb (ratio s n) (b64_of_tenths k)); apply Z.leb_le; exact W.
 Qed.
 
 (* accepted => at least the threshold, exactly (no rounding slack in the accepting direction) *)
@@ -67,14 +48,20 @@ Definition signed_by (signs : list sign) (m : node) : bool :=
 (* the current members that signed with their registered key *)
 Definition signers (suf : list node) (signs : list sign) : list node := filter (signed_by signs) suf.
 
+Lemma filter_len_le {A} (p : A -> bool) l : (length (filter p l) <= length l)%nat.
+Proof. induction l as [|a r IH]; simpl; [lia|]. destruct (p a); simpl; lia. Qed.
+
 Lemma count_le_length suf signs : 0 <= count_signs suf signs <= Z.of_nat (length signs).
-Proof. unfold count_signs. pose proof (filter_length_le (exists_pub suf) signs). lia. Qed.
+Proof. unfold count_signs. pose proof (filter_len_le (exists_pub suf) signs). lia. Qed.
+
+Definition sign_node (s : sign) : N := fst s.
 
 Lemma count_le_signers suf signs : NoDup (map fst signs) ->
   count_signs suf signs <= Z.of_nat (length (signers suf signs)).
 Proof.
-  intros ND. unfold count_signs. apply inj_le.
-  rewrite <- (map_length fst (filter (exists_pub suf) signs)).
+  intros ND. unfold count_signs. apply (proj1 (Nat2Z.inj_le _ _)).
+  change (map fst signs) with (map sign_node signs) in ND.
+  rewrite <- (map_length sign_node (filter (exists_pub suf) signs)).
   rewrite <- (map_length n_addr (signers suf signs)).
   apply NoDup_incl_length.
   - clear -ND. induction signs as [|a r IH]; simpl; [constructor|].
@@ -83,7 +70,7 @@ Proof.
     intro H. apply Nin. apply in_map_iff in H. destruct H as [b [E Hb]]. apply filter_In in Hb.
     rewrite <- E. apply in_map. apply Hb.
   - intros a Ha. apply in_map_iff in Ha. destruct Ha as [s [<- Hs]]. apply filter_In in Hs.
-    destruct Hs as [Hs Ex]. unfold exists_pub in Ex.
+    destruct Hs as [Hs Ex]. unfold exists_pub in Ex. unfold sign_node.
     destruct (find_node (fst s) suf) as [m|] eqn:F; [|discriminate].
     unfold find_node in F. apply find_some in F. destruct F as [Hm Em]. apply N.eqb_eq in Em.
     apply in_map_iff. exists m. split; [exact Em|]. apply filter_In. split; [exact Hm|].
@@ -92,7 +79,7 @@ Proof.
 Qed.
 
 Lemma signers_le suf signs : (length (signers suf signs) <= length suf)%nat.
-Proof. apply filter_length_le. Qed.
+Proof. apply filter_len_le. Qed.
 
 (* enough signs, in exact arithmetic, by distinct current members *)
 Lemma check_signs_exact suf k signs : NoDup (map fst signs) ->
